@@ -63,8 +63,16 @@ def x_hist(ctx, case):
     slog, flog = recorders.Log(), recorders.Log()
     sink = recorders.StreamRecorder(slog, "s")
     far = recorders.ExtRecorder(flog)
-    top = testtools.ExtendedToStreamDecorator(
-        testtools.CopyStreamResult([sink, testtools.StreamToExtendedDecorator(far)]))
+    e2s_class = testtools.ExtendedToStreamDecorator
+    if case.get("e2s_subclass"):
+        # a subclass overriding status() - the one method every event is documented to go through - here to stamp a
+        # route code on whatever the decorator emits (the inprogress event of startTest included)
+        class Stamping(testtools.ExtendedToStreamDecorator):
+            def status(self, *args, **kwargs):
+                kwargs["route_code"] = "stamped"
+                return super().status(*args, **kwargs)
+        e2s_class = Stamping
+    top = e2s_class(testtools.CopyStreamResult([sink, testtools.StreamToExtendedDecorator(far)]))
     detail = lambda: {"history": history}  # noqa: E731
     try:
         H.drive(top, history, details_fn=details_fn)
@@ -403,4 +411,4 @@ def run(ctx):
                     h[0][1].pop("t0", None)
                     if h[0][1].get("no_start"):
                         h[0][1].pop("t1", None)   # its outcome is the call that starts the run
-        ctx.execute("hist", {"history": h})
+        ctx.execute("hist", {"history": h, "e2s_subclass": rng.random() < 0.2})
